@@ -1,0 +1,121 @@
+//go:build verif
+
+package dag
+
+// Machine-checked contracts for govc (the VC generator in /verif/govc).
+// This file contains comments only; it is compiled into nothing.
+//
+// Representation invariant of a graph (C16): the vertex table maps every ID to one vertex carrying that ID and a
+// runnable task, and every vertex mentioned in an edge list IS the registered vertex of its ID (no stale copies).
+//@ spec func Registered(g *Graph, c *Vertex) bool = c != nil && (c.ID in g.Vertices) && g.Vertices[c.ID] == c
+//@ spec func EdgesOK(g *Graph, v *Vertex) bool = (forall i int :: 0 <= i && i < len(v.Children) ==> Registered(g, v.Children[i]))
+//@     && (forall i int :: 0 <= i && i < len(v.Parents) ==> Registered(g, v.Parents[i]))
+//@ spec func VertexOK(g *Graph, id ID) bool = g.Vertices[id] != nil && g.Vertices[id].ID == id && g.Vertices[id].Task != nil && g.Vertices[id].Task.Fn != nil
+//@     && g.Vertices[id].Task.ID == id && EdgesOK(g, g.Vertices[id])
+//@ spec func StatusOK() bool = forall u *Vertex :: u != nil ==> runPending <= u.status && u.status <= runDone
+//@ spec func WF(g *Graph) bool = g != nil && g.Vertices != nil && g.errs != nil && g.maxParallel >= 1 && (forall id ID :: (id in g.Vertices) ==> VertexOK(g, id))
+
+//@ func NewGraph
+//@   props C16 C15 C19
+//@   allocates Graph, Errors, map[ID]*Vertex
+//@   modifies
+//@   ensures newgraph.wf {C16}: fresh(result) && WF(result) && len(result.errs.Errors) == 0 && (forall id ID :: !(id in result.Vertices))
+//@   ensures newgraph.par {C15}: result.maxParallel >= 1 && !result.serial
+
+//@ func (*Graph).SetMaxParallel
+//@   props C15 C19
+//@   requires g != nil && g.maxParallel >= 1
+//@   modifies g.maxParallel
+//@   ensures setmax {C15}: result == g && g.maxParallel >= 1 && (max > 0 ==> g.maxParallel == max) && (max <= 0 ==> g.maxParallel == old(g.maxParallel))
+
+//@ func (*Graph).SetSerial
+//@   props C15 C19
+//@   requires g != nil
+//@   modifies g.serial
+//@   ensures g.serial && result == g
+
+//@ func (*Graph).addTask
+//@   props C16 C13 C19
+//@   requires addtask.wf: WF(g)
+//@   allocates Vertex
+//@   modifies mapof(g.Vertices), g.dotDiagram, Vertex.Task
+//@   ensures addtask.wf {C16,C13}: WF(g)
+//@   ensures addtask.ok {C16}: result == nil ==> t != nil && (t.ID in g.Vertices) && g.Vertices[t.ID].Task == t
+//@   ensures addtask.keeps {C16,C13}: forall id ID :: old(id in g.Vertices) ==> (id in g.Vertices) && g.Vertices[id] == old(g.Vertices[id])
+//@   ensures addtask.err {C16}: result != nil ==> (forall id ID :: (id in g.Vertices) == old(id in g.Vertices))
+//@   ensures addtask.errs: g.errs == old(g.errs) && g.maxParallel == old(g.maxParallel)
+
+//@ func (*Graph).AddTask
+//@   props C16 C19
+//@   requires WF(g)
+//@   allocates Vertex
+//@   modifies mapof(g.Vertices), g.dotDiagram, g.errs.Errors, Vertex.Task
+//@   ensures addtaskpub.wf {C16}: WF(g)
+//@   ensures addtaskpub.keeps {C16,C13}: forall id ID :: old(id in g.Vertices) ==> (id in g.Vertices) && g.Vertices[id] == old(g.Vertices[id])
+
+//@ func (*Graph).retrieveOrAddVertex
+//@   props C16 C19
+//@   requires WF(g)
+//@   allocates Vertex
+//@   modifies mapof(g.Vertices), g.dotDiagram, Vertex.Task
+//@   ensures retr.wf {C16}: WF(g)
+//@   ensures retr.ok {C16}: result1 == nil ==> Registered(g, result0)
+//@   ensures retr.keeps {C16,C13}: forall id ID :: old(id in g.Vertices) ==> (id in g.Vertices) && g.Vertices[id] == old(g.Vertices[id])
+
+//@ func (*Graph).TaskRetries
+//@   props C16 C13 C19
+//@   requires WF(g)
+//@   allocates Vertex
+//@   modifies mapof(g.Vertices), g.dotDiagram, g.errs.Errors, Vertex.Retries, Vertex.Task
+//@   ensures retries.wf {C16}: WF(g)
+
+//@ func (*Graph).TaskDependsOn
+//@   props C16 C13 C19
+//@   requires depends.wf: WF(g)
+//@   allocates Vertex
+//@   modifies mapof(g.Vertices), g.dotDiagram, g.errs.Errors, Vertex.Children, Vertex.Parents, Vertex.Task
+//@   ensures depends.wf {C16,C13}: WF(g)
+//@   ensures depends.keeps {C16,C13}: forall id ID :: old(id in g.Vertices) ==> (id in g.Vertices) && g.Vertices[id] == old(g.Vertices[id])
+//@   loop "for _, tDependency := range tDependencies"
+//@     invariant dep.wf: WF(g) && Registered(g, vertex) && g == old(g)
+//@     invariant dep.keeps: forall id ID :: old(id in g.Vertices) ==> (id in g.Vertices) && g.Vertices[id] == old(g.Vertices[id])
+//@   loop "for _, c := range vertex.Children"
+//@     invariant dup.none: forall i int :: 0 <= i && i <= $idx ==> vertex.Children[i].ID != vDependency.ID
+
+// Readiness (C13): pending (or marked skip) and no dependency pending or in progress.
+//@ spec func DepsSettled(v *Vertex) bool = forall i int :: 0 <= i && i < len(v.Children) ==> v.Children[i].status == runDone || v.Children[i].status == runSkip
+//@ spec func Ready(v *Vertex) bool = (v.status == runPending || v.status == runSkip) && DepsSettled(v)
+//@ spec func AnyInProgress(g *Graph) bool = exists id ID :: (id in g.Vertices) && g.Vertices[id].status == runInProgress
+
+//@ func (*Graph).getNextVertex
+//@   props C13 C14 C15 C16 C19
+//@   requires next.wf: WF(g) && StatusOK()
+//@   modifies
+//@   ensures next.ready {C13}: result2 ==> Registered(g, result0) && Ready(result0)
+//@   ensures next.excl {C14}: result1 ==> !result2
+//@   ensures next.alldone {C14,C16}: result1 ==> (forall id ID :: (id in g.Vertices) ==> g.Vertices[id].status == runDone)
+//@   ensures next.serial {C15}: g.serial && AnyInProgress(g) ==> !result2 && !result1
+//@   ensures next.complete {C16}: !result2 && !(g.serial && AnyInProgress(g)) ==> (forall id ID :: (id in g.Vertices) ==> !Ready(g.Vertices[id]))
+//@   ensures next.finished {C14,C16}: !result2 && !(g.serial && AnyInProgress(g)) && (forall id ID :: (id in g.Vertices) ==> g.Vertices[id].status == runDone) ==> result1
+//@   loop "for _, vertex := range g.Vertices"@1
+//@     invariant serial.none: forall q ID :: (q in $seen) ==> g.Vertices[q].status != runInProgress
+//@   loop "for _, vertex := range g.Vertices"@2
+//@     invariant scan.notready: forall q ID :: (q in $seen) ==> !Ready(g.Vertices[q])
+//@     invariant scan.count: 0 <= doneCount && doneCount <= $count
+//@     invariant scan.done: doneCount == $count ==> (forall q ID :: (q in $seen) ==> g.Vertices[q].status == runDone)
+//@     invariant scan.alldone: (forall q ID :: (q in $seen) ==> g.Vertices[q].status == runDone) ==> doneCount == $count
+//@   loop "for _, child := range vertex.Children"@2
+//@     invariant kids.none: !childPending ==> (forall i int :: 0 <= i && i <= $idx ==> vertex.Children[i].status == runDone || vertex.Children[i].status == runSkip)
+//@     invariant kids.some: childPending ==> (exists i int :: 0 <= i && i <= $idx && vertex.Children[i].status != runDone && vertex.Children[i].status != runSkip)
+
+// skipParents (C14): marks every parent, transitively; writes nothing but runSkip.
+//@ spec func ParentsNonNil() bool = forall u *Vertex :: u != nil ==> (forall i int :: 0 <= i && i < len(u.Parents) ==> u.Parents[i] != nil)
+//@ func skipParents
+//@   props C14 C19
+//@   requires skip.pre: v != nil && ParentsNonNil()
+//@   modifies Vertex.status
+//@   ensures skip.only {C14}: forall u *Vertex :: u.status == old(u.status) || u.status == runSkip
+//@   ensures skip.parents {C14}: forall i int :: 0 <= i && i < len(v.Parents) ==> v.Parents[i].status == runSkip
+//@   loop "for _, c := range v.Parents"
+//@     invariant skip.sofar: forall i int :: 0 <= i && i <= $idx ==> v.Parents[i].status == runSkip
+//@     invariant skip.onlyinv: forall u *Vertex :: u.status == old(u.status) || u.status == runSkip
